@@ -138,7 +138,11 @@ SPEC = {
             "(+129 thorough) qubits built through the real API (X/Y/Z on marked qubits for signs, then H/S/CX/CZ so that normalize moves rows and "
             "their signs across the u64 word boundaries): every step, swap_rows / multiply_row across the boundaries, normalize of scrambled "
             "tableaux, packed words; (8) StabilizerState::measure_into on a register word that is all ones beforehand (a measured 0 must clear "
-            "the bit), and measure; X; measure into the same bit (minto, minto2). (A) Display text / MeasurementInfo / "
+            "the bit), and measure; X; measure into the same bit (minto, minto2); (9) 500/3000 Circuits of 1..3 qubits (Clifford gates, measurements, "
+            "resets, classically controlled Clifford AND non-Clifford gates, occasional plain non-Clifford gates) executed with "
+            "execute_with_rng (automatic representation) and execute_with(vector) with the same seed; is_stabilizer_circuit() against the "
+            "model's conjunction; (10) 60/400 StabilizerState histories: H q0, H q1, measure q0, measure q1, reset q0, then measure/peek q1 "
+            "into a third bit, 8..24 shots. (A) Display text / MeasurementInfo / "
             "panic site / error constructor equal the Lean model's; where the code draws random numbers the answer must be one the model "
             "allows. (B) for every request whose tableau describes a stabilizer state of <= 8 qubits (independent commuting rows; the "
             "exact state is computed over Z[zeta_8] by the projector method): the answer tableau must stabilize the exact state-vector "
@@ -146,7 +150,10 @@ SPEC = {
             "term the exact result is (Spec.specMatrix of the term over Q(zeta_8), Spec.embed on the placement) * state; for "
             "n > 8 (no state vector) the Pauli-group reference: the signed rows after swap / mul / normalize / gate must generate exactly the "
             "group of the rows before, conjugated symbolically by the gate's documented matrix (M P M^H = +-P' searched over Q(zeta_8)); "
-            "minto/minto2: the stored bit must select a non-zero projection that the tableau stabilizes, other register bits untouched. "
+            "minto/minto2: the stored bit must select a non-zero projection that the tableau stabilizes, other register bits untouched; auto: the two runs must end in the same result class "
+            "(Ok / Err constructor) and, for deterministic circuits, the same register; hist: in every shot the q1 bit stored before the reset "
+            "equals the read-out after it, and the tableaus owned by the shots carry the stored q1 values; a panic of the code under test while "
+            "the harness evolves a state is a failure (stream-panicked). "
             "Non-trivial = request on a tableau with an X or Y generator that returned, or any error/panic; distinct = distinct request line.",
     "exhaustive": False,
 }
